@@ -504,12 +504,35 @@ fn join(slot: usize) {
 }
 "#;
 
+#[derive(Clone, Debug)]
+pub struct MtOpts {
+    pub workers: usize,
+    pub iters: u64,
+    pub main_iters: u64,
+    pub spin: u64,
+    /// workers created only after main has slept `late_ms` (threads that appear after an attach)
+    pub late_workers: usize,
+    pub late_ms: u64,
+    /// every worker iteration sleeps this long (0 = none): keeps the process alive for an attach
+    pub worker_sleep_us: u64,
+}
+
 /// A libc-free multi-threaded program (raw clone): `workers` threads each call `bump` `iters`
 /// times while main calls `mwork` `main_iters` times, then joins and prints the counter.
 pub fn generate_mt(workers: usize, iters: u64, main_iters: u64, spin: u64) -> Program {
+    generate_mt_opts(&MtOpts { workers, iters, main_iters, spin, late_workers: 0, late_ms: 0, worker_sleep_us: 0 })
+}
+
+pub fn generate_mt_opts(o: &MtOpts) -> Program {
+    let (workers, iters, main_iters, spin) = (o.workers, o.iters, o.main_iters, o.spin);
     let mut s = Src::new();
     s.raw(SIGNAL_PRELUDE);
     s.raw(THREAD_PRELUDE);
+    s.l("#[inline(never)]", None);
+    s.l("fn nap(us: u64) {", None);
+    s.l("    let ts = [us / 1000000, (us % 1000000) * 1000];", None);
+    s.l("    sys4(35, &ts as *const _ as isize, 0, 0, 0);", None);
+    s.l("}", None);
     s.l("#[inline(never)]", None);
     s.l("fn bump(w: u64, i: u64) -> u64 {", None);
     s.l("    let old = COUNTER.fetch_add(1, core::sync::atomic::Ordering::SeqCst);", Some("bump.1"));
@@ -521,6 +544,9 @@ pub fn generate_mt(workers: usize, iters: u64, main_iters: u64, spin: u64) -> Pr
     s.l("    let mut i = 0u64;", Some("worker.1"));
     s.l(&format!("    while i < {iters} {{"), Some("worker.loop"));
     s.l("        bump(w, i);", Some("worker.call"));
+    if o.worker_sleep_us > 0 {
+        s.l(&format!("        nap({});", o.worker_sleep_us), Some("worker.nap"));
+    }
     s.l("        i += 1;", Some("worker.inc"));
     s.l("    }", None);
     s.l("}", Some("worker.end"));
@@ -548,14 +574,23 @@ pub fn generate_mt(workers: usize, iters: u64, main_iters: u64, spin: u64) -> Pr
     s.l("        a = mwork(a) % 1000;", Some("main.call"));
     s.l("        k += 1;", Some("main.inc"));
     s.l("    }", None);
-    for w in 0..workers {
+    if o.late_workers > 0 {
+        s.l(&format!("    nap({});", o.late_ms * 1000), Some("main.nap"));
+        for w in workers..workers + o.late_workers {
+            s.l(&format!("    spawn({w}, worker, {w});"), Some(&format!("main.spawn{w}")));
+        }
+    }
+    for w in 0..workers + o.late_workers {
         s.l(&format!("    join({w});"), Some(&format!("main.join{w}")));
     }
     s.l("    emit(COUNTER.load(core::sync::atomic::Ordering::SeqCst));", Some("main.emit"));
     s.l("    emit(hits());", Some("main.hits"));
     s.l("    (a % 200) as i32", Some("main.ret"));
     s.l("}", None);
-    let name = format!("mt_w{workers}_i{iters}_m{main_iters}_s{spin}");
+    let mut name = format!("mt_w{workers}_i{iters}_m{main_iters}_s{spin}");
+    if o.late_workers > 0 || o.worker_sleep_us > 0 {
+        name = format!("{name}_l{}_{}_z{}", o.late_workers, o.late_ms, o.worker_sleep_us);
+    }
     Program { name: name.clone(), src_file: format!("{name}.rs"), source: s.text, lines: s.marks, functions: vec!["main".into(), "emit".into(), "bump".into(), "worker".into(), "mwork".into(), "spawn".into(), "join".into()] }
 }
 
